@@ -1537,8 +1537,12 @@ func tableCases(c *core.Ctx) {
 		r.srv = server.New(cfg0)
 		r.apply(t)
 		var satQ, postQ []string
-		for _, cmd := range allCmds {
+		for _, cmd := range append(append([]int(nil), allCmds...), cmdAE+1<<32, cmdR-1<<32, cmdA+math.MinInt64, -1) {
 			reg, raw, _ := r.srv.VerifLookup(cmd)
+			c.OracleCheck()
+			if h := t.lookup(cmd); reg != (h != nil) || (h != nil && raw != h.Raw) {
+				c.OracleFail("lookup-wrong", fmt.Sprintf("lookup(%d) = registered %t raw %t, the registrations say %v", cmd, reg, raw, h), map[string]interface{}{"class": "sat", "tables": t, "cmd": cmd})
+			}
 			for _, peer := range []string{addr1, addr2} {
 				for _, u := range satUsers {
 					for ai := 0; ai < 5; ai++ {
